@@ -43,10 +43,10 @@ func c10Strata() []stratum {
 		{"general", with(func(c *gen.LCfg) { c.PAbsent = 3 }), 2},
 		{"sparse-sheet", with(func(c *gen.LCfg) { c.PAbsent = 50; c.POriginVar = 30 }), 2},
 		{"many-accounts", with(func(c *gen.LCfg) {
-			c.Accounts = manyAccounts(40)
+			c.Accounts = manyAccounts(50)
 			c.Assets = []string{"USD", "COIN"}
-			c.Depth, c.Fanout, c.MaxStmts, c.PAbsent, c.PRepeat = 2, 24, 3, 10, 5
-			c.PSrcSeq, c.PSrcAllot, c.PWorld, c.POriginVar = 60, 15, 5, 20
+			c.Depth, c.Fanout, c.MaxStmts, c.PAbsent, c.PRepeat = 2, 48, 3, 10, 5
+			c.PSrcSeq, c.PSrcAllot, c.PWorld, c.POriginVar, c.PLongSrc = 60, 15, 5, 20, 30
 		}), 2},
 		{"biglits", with(func(c *gen.LCfg) {
 			c.Accounts = []string{"a", "b"}
